@@ -22,7 +22,7 @@ RULE = ('histories = all sequences over {start, shutdown} of length 1..4; enviro
         'poll malformed, plugin i shutdown raises, plugin i resource raises}; after each operation hooks/started/timer/plugins/deliveries are '
         'compared with the model, and after a shutdown a matching trace event is delivered to the handler; non-trivial = history has a '
         'shutdown after a start with a fault, a pre-existing hook, or NO_TRACE'
-        " ; start and shutdown on different threads x {sys hook, threading hook, caller's hook, NO_TRACE}; a second start() / a shutdown() arriving while the first start() is parked in a plugin's resource()")
+        " ; start and shutdown on different threads x {sys hook, threading hook, caller's hook, NO_TRACE}; a second start() / a shutdown() arriving while the first start() is parked in a plugin's resource(); the starting thread ended and its ident given to a later thread (lazy / calling shutdown itself)")
 ASSUMPTIONS = ['a start after a shutdown (restart) may be refused or work, but must leave hooks consistent with `started`',
                'the poll interval is long (no tick during the sequential histories); ticks racing shutdown are explored in the E1 harness']
 
@@ -93,6 +93,9 @@ def cases(tier, seed):
     # start and shutdown called by different threads, each with trace functions of its own (sys.settrace is per thread)
     for st, tt, ot, nt in itertools.product((0, 1), (0, 1), (0, 1), (0, 1)):
         out.append({'k': 'threads', 'sys': st, 'thr': tt, 'other': ot, 'no_trace': nt})
+    # the starting thread has ended; a later thread is given its ident by the system (idents are recycled)
+    for st, tt, mode in itertools.product((0, 1), (0, 1), ('lazy', 'direct')):
+        out.append({'k': 'recycled', 'sys': st, 'thr': tt, 'mode': mode})
     # a second start() / a shutdown() arriving while the first start() is still in progress (parked in a plugin's resource())
     for second in ('start', 'shutdown'):
         for st in (0, 1):
@@ -180,6 +183,101 @@ def threads_case(ctx, desc):
     elif not desc['no_trace'] and obs.get('worker_after') is not pre[1]:
         ctx.violation('C14/threads/live-thread-keeps-agent-hook', f'{label}: a thread started while the agent was live has, after its next traced call, {name(obs.get("worker_after"))} '
                       f'(without the agent it would have the threading hook {name(pre[1])})', desc)
+
+
+class _RecycledIdents:
+    """The threading module as the trigger handler sees it, on a system that gives the ident of a finished thread to the next one created:
+    thread `late` gets the ident that thread `gone` had."""
+    def __init__(self):
+        self.gone_ident = None
+        self.late = None
+
+    def __getattr__(self, name):
+        return getattr(threading, name)
+
+    def get_ident(self):
+        me = threading.get_ident()
+        if self.late is not None and me == self.late:
+            return self.gone_ident
+        return me
+
+
+def recycled_case(ctx, desc):
+    """Thread S (sys trace function pre[0]) starts the agent and ends. Thread L is created afterwards and has S's ident. lazy: L has no function
+    of its own, main shuts down, L's next traced call must leave it with the old threading hook (what it would have without the agent) - not
+    with the private function of S. direct: L sets its own function and calls shutdown(): it keeps its own function."""
+    import deep.processor.trigger_handler as TH
+    from deepproto.proto.tracepoint.v1.tracepoint_pb2 import SnapshotResponse
+    chan = rig.FakeChannel(send_handler=lambda r, m: SnapshotResponse())
+    pre = (fa if desc['sys'] else None, fb if desc['thr'] else None)
+    ctx.case()
+    ctx.nt(('recycled', desc['sys'], desc['thr'], desc['mode']))
+    saved = (sys.gettrace(), threading.gettrace())
+    obs = {}
+    idents = _RecycledIdents()
+    go, done = threading.Event(), threading.Event()
+
+    def touch():
+        return 1
+
+    def starter(w):
+        sys.settrace(pre[0])
+        idents.gone_ident = threading.get_ident()
+        w.deep.start()
+        sys.settrace(None)
+
+    def late(w):
+        idents.late = threading.get_ident()
+        if desc['mode'] == 'direct':
+            sys.settrace(fc_)
+            try:
+                w.deep.shutdown()
+            except BaseException as e:
+                obs['shutdown_exc'] = e
+            obs['late_after'] = sys.gettrace()
+        else:
+            touch()
+            go.set()
+            done.wait(20)
+            touch()
+            obs['late_after'] = sys.gettrace()
+        sys.settrace(None)
+    real = TH.threading
+    try:
+        threading.settrace(pre[1])
+        TH.threading = idents
+        with rig.DeepWorld(channel=chan) as w:
+            w._trace = saved
+            a = threading.Thread(target=starter, args=(w,), name='host-starter')
+            a.start()
+            a.join(30)
+            b = threading.Thread(target=late, args=(w,), name='host-late')
+            b.start()
+            if desc['mode'] == 'lazy':
+                go.wait(20)
+                try:
+                    w.deep.shutdown()
+                except BaseException as e:
+                    obs['shutdown_exc'] = e
+                done.set()
+            b.join(30)
+            obs['threading_after'] = threading.gettrace()
+    finally:
+        TH.threading = real
+        sys.settrace(saved[0])
+        threading.settrace(saved[1])
+    name = lambda f: getattr(f, '__name__', f) if getattr(f, '__self__', None) is None else 'agent'      # noqa: E731
+    label = (f'start on a thread with sys={name(pre[0])} that then ends, threading hook {name(pre[1])}; a later thread has its ident and '
+             + ('calls shutdown() with its own function fc_' if desc['mode'] == 'direct' else 'has no function of its own, main calls shutdown()'))
+    want = fc_ if desc['mode'] == 'direct' else pre[1]
+    ctx.outcome(('recycled', desc['mode'], name(obs.get('late_after'))))
+    if 'shutdown_exc' in obs:
+        ctx.violation('C14/recycled-ident/shutdown-raised', f'{label}: {obs["shutdown_exc"]!r}', desc)
+    elif obs.get('threading_after') is not pre[1]:
+        ctx.violation('C14/recycled-ident/threading-hook-not-restored', f'{label}: threading trace function is {name(obs.get("threading_after"))}', desc)
+    elif obs.get('late_after') is not want:
+        ctx.violation('C14/recycled-ident/thread-given-the-dead-threads-hook', f'{label}: afterwards the later thread has sys trace function '
+                      f'{name(obs.get("late_after"))}, it is to have {name(want)}', desc)
 
 
 def overlap_case(ctx, desc):
@@ -274,6 +372,8 @@ def run_case(ctx, desc):
         return race(ctx, desc)
     if desc['k'] == 'threads':
         return threads_case(ctx, desc)
+    if desc['k'] == 'recycled':
+        return recycled_case(ctx, desc)
     if desc['k'] == 'overlap':
         return overlap_case(ctx, desc)
     faults = [desc['fault']] if 'fault' in desc else FAULTS
